@@ -4,6 +4,7 @@ Property theorems only (helpers in OAP/Proofs/Metadata.lean and OAP/Model/Metada
 `lower` (strings.ToLower) is arbitrary in every statement.
 -/
 import OAP.Proofs.Metadata
+import OAP.Proofs.GenFuncs
 namespace OAP.C09
 open OAP OAP.Metadata
 
@@ -187,5 +188,21 @@ example : ∃ e, unmarshalStringLength [0x80, 0x05, 1, 2, 3, 4, 5] = .err e :=
   strlen_rejects_noncanonical 0x80 0x05 _ (by decide) (by decide)
 example : (Metadata.set id [] (List.replicate 32768 0x61) []).isOk = false := by
   rw [set_guard, List.length_replicate]; decide
+
+/-! ### generated translations of the two string-length helpers (T2, function level) -/
+
+/-- `func marshalString(str string) (data []byte, tooLong bool)`, as translated from go/metadata.go in this run, is the model's
+`marshalString` (`none` = tooLong with empty data) -/
+theorem marshalString_is_generated (s : Bytes) :
+    Gen.Fn.protocol_marshalString s =
+      .ok (match marshalString s with | some d => (d, false) | none => ([], true)) :=
+  GenFuncs.marshalString_gen s
+
+/-- `func unmarshalStringLength(data []byte) (l int, bitSize uint8, err error)`, as translated from the source (the switch over the
+size bit, the second-byte test, the canonical-form test, every index operation), is the model's function: same length, same size
+bit, same error, and no index out of range on any input -/
+theorem unmarshalStringLength_is_generated (data : Bytes) :
+    Gen.Fn.protocol_unmarshalStringLength data = unmarshalStringLength data :=
+  GenFuncs.unmarshalStringLength_gen data
 
 end OAP.C09
